@@ -104,7 +104,7 @@ func (histEngine) execute(sc *Scenario) *Outcome {
 	out := &Outcome{Index: sc.Index}
 	hc := sc.Hist
 	w := &hc.World
-	root, err := os.MkdirTemp(scratchBase(), "verif-hist-")
+	root, err := mkScratch("hist")
 	if err != nil {
 		out.Error = err.Error()
 		return out
@@ -863,7 +863,7 @@ func (c *stepCtx) determinism(hw *histWorld, spec *ProcSpec, env map[string]stri
 		c.out.Procs++
 		after := hw.snapshot()
 		c.out.stat("determinism_reruns", 1)
-		c.out.Log = append(c.out.Log, fmt.Sprintf("rerun %d map=%v cpus=%d -> exit=%d disk=%s stdout=%s", k, alt.MapTape[:4], alt.Cpus, res.ExitCode, fnv(after[c.target]), fnv(res.Stdout)))
+		c.out.Log = append(c.out.Log, fmt.Sprintf("rerun %d map=%v cpus=%d -> exit=%d disk=%s stdout=%s", k, alt.MapTape[:4], alt.Cpus, res.ExitCode, fnv(after[c.target]), fnv(res.stdoutNorm())))
 		if res.MapPerm > 0 {
 			c.out.stat("map_orders_permuted", res.MapPerm)
 		}
